@@ -129,6 +129,30 @@ pub struct Ops {
 }
 
 impl Ops {
+    /// Like `next`, but in generate mode the four numbers come from `f` (a workload template or a
+    /// biased draw); replay reads the tape as always.
+    pub fn next_with(&mut self, f: impl FnOnce(&mut Rng) -> [u64; 4]) -> Option<[u64; 4]> {
+        if self.chan.is_replay() {
+            return self.next();
+        }
+        if self.given >= self.planned {
+            return None;
+        }
+        self.given += 1;
+        const M: u64 = 1 << 20;
+        let mut vals: Option<[u64; 4]> = None;
+        let mut out = [0u64; 4];
+        let mut f = Some(f);
+        for k in 0..4 {
+            out[k] = self.chan.decide(M, |r| {
+                if vals.is_none() {
+                    vals = Some((f.take().unwrap())(r));
+                }
+                vals.unwrap()[k] % M
+            });
+        }
+        Some(out)
+    }
     pub fn next(&mut self) -> Option<[u64; 4]> {
         if self.chan.is_replay() {
             if self.chan.exhausted() {
